@@ -285,7 +285,10 @@ impl ShmReader {
             // SAFETY: `ceb_at` has been checked to be valid while creating the ShmReader
             let snapshot = unsafe { self.ceb_shm.read_volatile() };
 
-            // Confirm no update occurred during the read
+            // Confirm no update occurred during the read. The copy of the record must be complete
+            // before the generation is read again: an Acquire load only orders what follows it, so
+            // an Acquire fence is required between the (non-atomic) copy and the second load.
+            atomic::fence(atomic::Ordering::Acquire);
             let second_gen = generation.load(atomic::Ordering::Acquire);
             if first_gen == second_gen {
                 self.snapshot_gen = first_gen;
